@@ -11,6 +11,7 @@
           the call chain (b.walking; the entry is removed when the expansion returns).  g = false is the
           walk as it was written: nothing stops the recursion, so the fuel (= the Go stack) can run out
      x  = a listed app that is on the exclude list is not a seed
+   No Panic outcome remains in the builder (IntsTerm.build_never_panics).
    Outside the model: statements with no kind set (ProcessCalls panics on them; the parser never builds
    one), the de-duplication key being the ':'-joined string rather than the 4-tuple, labels / colours,
    the "system" view, mixin arrows, package boxes of the clustered view, the EPA view (Go oracle only). *)
@@ -52,12 +53,16 @@ Definition add_call (s:st) (d:dep) : st :=
   else {| deps := deps s ++ [d]; final := final s |}.
 Definition add_final (s:st) (a:id) : st := {| deps := deps s; final := final s ++ [a] |}.
 
-(* HasPattern(apps[target].GetAttrs(), "human") is nil-safe;
-   apps[target].Endpoints[ep] dereferences the app: nil app = panic; missing endpoint = not hidden *)
+(* HasPattern(apps[target].GetAttrs(), "human") and
+   HasPattern(apps[target].GetEndpoints()[ep].GetAttrs(), "hidden") go through the nil-safe getters: an
+   undefined app is not human and none of its endpoints is hidden, a missing endpoint is not hidden; a call to
+   such a target is recorded like any other.  (Before commit a405748 the second test read
+   apps[target].Endpoints[ep] and panicked on an undefined app.)  The result type keeps the outcome shape of
+   the handlers; target_hidden itself never returns Panic or OutOfFuel. *)
 Definition target_human (m:module) (t:id) : bool := match assoc t m with Some a => human a | None => false end.
 Definition target_hidden (m:module) (t e:id) : outcome bool :=
   match assoc t m with
-  | None => Panic
+  | None => Ok false
   | Some a => Ok (match assoc e (eps a) with Some x => hidden x | None => false end)
   end.
 
